@@ -1,5 +1,5 @@
-\* repaired mapping quota with the mutex keyed on the client that issued the code instead of the listen client
-\* that owns the quota, n codes of n different issuers: nothing serialises the activations.
+\* mapping quota with the mutex keyed on the client that issued the code instead of the listen client that owns the
+\* quota, n codes of n different issuers: nothing serialises the activations.
 \*   tlc -config Limits_show_wrongkey.cfg Limits.tla   (expected: Invariant NoDeviation is violated (WrongLockKey:
 \*   Call(1), Call(2)); with INVARIANTS NoOvershoot instead: Call(1), Count(1), Put(1), Call(2), Count(2), Put(2))
 CONSTANTS
@@ -7,13 +7,15 @@ CONSTANTS
   NS = {2, 3, 4}
   Lims = {0, 1, 2}
   NodeCounts = {1}
-  LockKeys = {"issuer"}
-  Variants = {}
+  Variants = {"wrongkey"}
+  Shape = "free"
   MaxReRel = 2
-  Slacks = {1}
+  Slacks = {1, 2}
+  Listers = 1
   FixedKinds = {"conncap", "maplimit", "maplive", "codequota", "mapquota"}
   WithRelease = TRUE
   Emit = FALSE
+  EmitMaxN = 4
   EmitAll = FALSE
 INIT Init
 NEXT Next
